@@ -62,6 +62,20 @@ pub fn lattice() -> Vec<BigUint> {
     &p - BigUint::from(12451u32),
     &p - BigUint::from(12452u32),
   ];
+  // elements whose INTERNAL (Montgomery) limbs are boundary values: m * R^-1 with
+  // R = 2^192 and m on the integer lattice (incl. m and m + 2^128 with equal low limbs)
+  {
+    let rinv = bf::inv(&((&one << 192) % &p)).unwrap();
+    let ms: Vec<BigUint> = vec![
+      BigUint::from(1u32), BigUint::from(2u32), BigUint::from(3u32), BigUint::from(12449u32), BigUint::from(12450u32),
+      &two64 - &one, two64.clone(), &two128 - &one, two128.clone(),
+      &two128 + &one, &two128 + BigUint::from(2u32), &two128 + BigUint::from(3u32), &two128 + BigUint::from(12449u32), &two128 + BigUint::from(12450u32),
+      (&one << 127), (&one << 127) + &one,
+    ];
+    for m in ms {
+      v.push(bf::mul(&m, &rinv));
+    }
+  }
   for b in [1u32, 31, 32, 33, 62, 65, 95, 96, 97, 126] {
     v.push(&one << b);
     v.push((&one << b) - &one);
@@ -145,6 +159,18 @@ fn check_binary(rec: &mut Rec, a: &BigUint, b: &BigUint) {
   }
   if of_fp(&pr) != wp {
     mismatch(rec, "product", a, Some(b), of_fp(&pr).to_string(), wp.to_string());
+  }
+  // the same pure operation called in the order a, b, a on one thread must not
+  // depend on what was computed before (caches keyed on part of an element)
+  rec.evn("invert_sequence", 3);
+  for (k, x) in [a, b, a].iter().enumerate() {
+    let f = if k == 1 { fb } else { fa };
+    let got: Option<Fp> = f.invert().into();
+    let want = bf::inv(x);
+    if got.map(|g| of_fp(&g)) != want {
+      mismatch(rec, "invert(sequence a,b,a)", a, Some(b), format!("{:?}", got.map(|g| of_fp(&g))), format!("{:?}", want));
+      break;
+    }
   }
   // equality
   rec.ev("eq");
